@@ -24,8 +24,8 @@ type Stats struct {
 	MaxLimb uint64           `json:"max_limb"`
 }
 
-func NewStats() *Stats { return &Stats{C: map[string]int64{}} }
-func (s *Stats) Inc(k string) { s.C[k]++ }
+func NewStats() *Stats                 { return &Stats{C: map[string]int64{}} }
+func (s *Stats) Inc(k string)          { s.C[k]++ }
 func (s *Stats) Add(k string, n int64) { s.C[k] += n }
 func (s *Stats) Merge(o *Stats) {
 	for k, v := range o.C {
